@@ -760,6 +760,8 @@ impl Logger {
                 Arc::clone(&a_other_writers),
                 self.flush_interval,
             )?;
+            #[cfg(flexi_logger_verif)]
+            crate::verif_hooks::sync_op(crate::verif_hooks::Op::Spawned("flusher"));
         }
 
         let max_level = self.spec.max_level();
